@@ -262,6 +262,10 @@ def simulate_writer(model, fi):
         def spy(f, args, kwargs, node=None):
             if any(a is labels[0] or a is labels[1] for a in args):
                 applied.append(f)
+                if len(args) == 1 and not kwargs and isinstance(f, FuncInfo) and f.cls is None:
+                    # a function of the label alone: what it computes is decided by R-LABEL-AGREE; here its
+                    # result is "the label, normalised by f"
+                    return AbsStr(prov=('m', f.name, (), args[0].prov))
             return orig(f, args, kwargs, node)
         it.call_function = spy
         args = [None] * len(fi.params())
@@ -273,7 +277,7 @@ def simulate_writer(model, fi):
         except Raised as r:
             return ('raise', r.exc.kind, fm, labels, dests, applied)
         return ('ok', None, fm, labels, dests, applied)
-    for trace, res in enumerate_paths(runner, 64):
+    for trace, res in enumerate_paths(runner, 4000):
         out.append(res)
     return out
 
@@ -428,59 +432,112 @@ class RefMatch(AbstractValue):
         return AbsInt('match.%s(%r)' % (name, g))
 
 
+# (raw text of a destination or title, what a Link / Image built from it must hold): character references
+# resolved once per the specification's table, backslash escapes of ASCII punctuation resolved once
+def _value_vectors():
+    from .. import charref
+    out = [(t, want) for t, want in charref.TABLE if '\\' not in t and t.strip() == t]
+    out += [('a\\*b', 'a*b'),                    # \* -> *
+            ('a\\\\*b', 'a\\*b'),                # \\* -> \* : once, not twice
+            ('a\\b', 'a\\b'),                    # a backslash before a letter stays
+            ('\\&copy', '&copy')]
+    return out
+
+
+def _store_concretely(model, fi, raw):
+    """What the definitions writer stores for `[foo]: raw "raw"` (interpreted on constants)."""
+    root_i, it_i = writer_roles(fi)
+    out = []
+
+    def runner(oracle):
+        it = Interp(model, loop_bound=3)
+        it.reset_run(oracle)
+        fm = FootnoteMap()
+        root = Obj(model.cls('block_token.Document'), {'footnotes': fm})
+        args = [None] * len(fi.params())
+        args[root_i], args[it_i] = root, [('foo', raw, raw, Unknown('dest_type'), Unknown('title_delimiter'))]
+        if fi.kind == 'classmethod':
+            args[0] = fi.cls
+        try:
+            it.call_function(fi, list(args), {})
+        except Raised:
+            return None
+        for op, key, value, known in fm.log:
+            if op in ('set', 'setdefault') and isinstance(value, tuple) and len(value) == 2:
+                return value
+        return None
+    for trace, v in enumerate_paths(runner, 64):
+        if v is not None:
+            out.append(v)
+    return out
+
+
 def rule_def_value(ctx, rep):
-    """A reference resolves to the destination and title of its definition: backslash escapes and entities of the
-    definition's text are resolved exactly once on the way into the Link / Image token, as they are for an inline
-    link. The writer is run over an abstract definition (what it stores), then the token constructors are run on a
-    reference match carrying the stored values and on an inline match carrying raw text; each resulting attribute
-    must derive from its source through exactly one unescaping."""
+    """A reference resolves to the destination and title of its definition: backslash escapes and character
+    references of the definition's text are resolved exactly once, and exactly as the specification says, on
+    the way into the Link / Image token - as they are for an inline link. Decided by folding the chain itself
+    on constants: the writer is interpreted on a definition whose destination and title are one representative
+    of every class of the specification's table (sa/charref.py) and of the backslash rules, the constructors are
+    interpreted on a reference match carrying what the writer stored and on an inline match carrying the raw
+    text; each resulting attribute must be the text resolved once."""
     model = ctx.model
     rule = 'R-DEF-VALUE'
-    rep.rule(rule, 'destination and title reach Link / Image through exactly one unescaping, for references and inline links alike')
+    rep.rule(rule, 'destination and title reach Link / Image with character references and backslash escapes resolved exactly once, as '
+             'the specification defines them, for references and inline links alike')
     writers = []
     for fi, node in footnote_writers(model):
         if fi not in writers:
             writers.append(fi)
-    stored = None
+    vectors = _value_vectors()
+    from .. import charref
+    inline = charref.inline_state(model)
+    stored = {}
     for fi in writers:
-        for kind, exc, fm, labels, dests, applied in simulate_writer(model, fi):
-            for op, key, value, known in fm.log:
-                if op in ('set', 'setdefault') and isinstance(value, tuple) and len(value) == 2 and stored is None:
-                    stored = value
-    if stored is None:
+        for raw, want in vectors:
+            for v in _store_concretely(model, fi, raw):
+                stored.setdefault(raw, v)
+    if not stored:
         raise AnalysisError('no stored (destination, title) pair seen in the writer simulation')
+    n = 0
     for cname, dattr in (('Link', 'target'), ('Image', 'src')):
         cls = model.cls('span_token.' + cname)
         rep.instance(rule)
+        hit = cls.lookup('__init__')
         for dest_type in ('full', 'collapsed', 'shortcut', 'uri', 'angle_uri'):
             reference = dest_type in ('full', 'collapsed', 'shortcut')
-            src_d, src_t = (stored if reference else (AbsStr(label='rawdest'), AbsStr(label='rawtitle')))
-            problems = []
+            problems = {}
+            for raw, want in vectors:
+                if reference and raw not in stored:
+                    continue
+                src_d, src_t = stored[raw] if reference else (raw, raw)
 
-            def runner(oracle):
-                it = Interp(model, loop_bound=1)
-                it.reset_run(oracle)
-                install_rx_hooks(it, [])
-                _prov_intrinsics(it)
-                hit = cls.lookup('__init__')
-                o = Obj(cls, {})
-                it.call_function(hit[1], [o, RefMatch(src_d, src_t, dest_type)], {})
-                return o
-            for trace, o in enumerate_paths(runner, 16):
-                for attr, src in ((dattr, src_d), ('title', src_t)):
-                    v = o.attrs.get(attr)
-                    prov = getattr(v, 'prov', None)
-                    n_ent = _count_ops(prov, 'html.unescape')
-                    n_esc = _count_ops(prov, 'rxsub') + _count_ops(prov, 're.sub')
-                    if not isinstance(v, AbsStr) or (n_ent, n_esc) != (1, 1):
-                        problems.append('%s.%s of a %s %s has entities resolved %d time(s) and backslash escapes %d time(s) on the way from '
-                                        'the %s text' % (cname, attr, dest_type, 'reference' if reference else 'inline link', n_ent, n_esc,
-                                                         "definition's" if reference else "link's own"))
-            rep.obligation(rule, not problems, {'class': cname, 'dest_type': dest_type, 'problems': sorted(set(problems))})
-            for p_ in sorted(set(problems)):
-                rep.find(rule, cls.short + '.__init__', '%s:%s' % (dest_type, p_.split(' of ')[0]),
-                         p_ + ': exactly once is required (twice turns \\\\* into * and &amp;amp; into &; never leaves \\* and &amp; as written)',
-                         loc(model.unit_of(cls), cls.node), witness='[foo]\n\n[foo]: /a\\\\*b "&amp;amp;"')
+                def runner(oracle):
+                    it = Interp(model, loop_bound=1)
+                    it.reset_run(oracle)
+                    it.gstate.update(inline)      # Link / Image are constructed inside span_tokenizer.tokenize
+                    o = Obj(cls, {})
+                    it.call_function(hit[1], [o, RefMatch(src_d, src_t, dest_type)], {})
+                    return o
+                try:
+                    outs = [o for trace, o in enumerate_paths(runner, 16)]
+                except Raised as r:
+                    problems.setdefault('constructor', 'the constructor raises %s' % r.exc.kind)
+                    continue
+                for o in outs:
+                    n += 1
+                    for attr in (dattr, 'title'):
+                        got = o.attrs.get(attr)
+                        if got != want:
+                            problems.setdefault(attr, '%s.%s of %s is %r for the %s text %r: with character references and backslash '
+                                                'escapes resolved once it is %r' % (cname, attr, 'a %s reference' % dest_type if reference
+                                                                                   else 'an inline link (%s)' % dest_type, got,
+                                                                                   "definition's" if reference else "link's own", raw, want))
+            rep.obligation(rule, not problems, {'class': cname, 'dest_type': dest_type, 'vectors': len(vectors),
+                                                'problems': sorted(problems.values())[:4]})
+            for attr, p_ in sorted(problems.items()):
+                rep.find(rule, cls.short + '.__init__', '%s:%s.%s' % (dest_type, cname, attr), p_,
+                         loc(model.unit_of(cls), cls.node), witness='[foo]\n\n[foo]: /a\\\\*b "&amp;amp; &copy"')
+    rep.floor(rule, n, 100)
 
 
 def normaliser_of(fi, expr, depth=0):
@@ -546,25 +603,38 @@ def rule_label_agree(ctx, rep):
     # the normaliser itself
     rep.instance('R-LABEL-AGREE')
 
-    def runner(oracle):
+    # what the normaliser does is decided by folding it, as a pure function of its argument, over one
+    # representative of every class the specification's matching rule distinguishes (CommonMark 0.30, 4.7 /
+    # 6.3: Unicode case fold; leading and trailing spaces, tabs and line endings stripped; internal runs of
+    # them collapsed to one space) - a table of constants, like the sanitiser images of C08/C17
+    def N(text):
         it = Interp(model)
-        it.reset_run(oracle)
-        install_rx_hooks(it, [])
-        it.intrinsics['str.join'] = lambda interp, args, kwargs: AbsStr(prov=('join', args[0], _freeze(args[1])))
-        it.intrinsics['re.sub'] = lambda interp, args, kwargs: AbsStr(prov=('re.sub', args[0], args[1], _freeze(args[2])))
-        return it.call_function(nf, [AbsStr(label='label')], {})
-    provs = []
-    for trace, v in enumerate_paths(runner, 16):
-        provs.append(v.prov if isinstance(v, AbsStr) else repr(v))
-    flat = str(provs)
-    folds = all("'casefold'" in str(p) for p in provs)
-    collapses = all(("('join', ' '" in str(p) and "'split'" in str(p)) or ("'re.sub', '\\\\s+', ' '" in str(p)) for p in provs)
-    ok = bool(provs) and folds and collapses
-    rep.obligation('R-LABEL-AGREE', ok, {'normaliser': nf.short, 'result': flat[:160]})
+        it.reset_run(Oracle())
+        try:
+            return it.call_function(nf, [text], {})
+        except Raised as r:
+            return 'raises %s' % r.exc.kind
+    rows = []
+    for w, what in ((' ', 'a space'), ('\t', 'a tab'), ('\n', 'a line ending'), ('  ', 'two spaces'), (' \n ', 'a line ending among spaces'),
+                    ('\t\t', 'two tabs'), ('\r\n', 'a CR LF line ending')):
+        rows.append(('inner %s is one space' % what, N('a' + w + 'b'), N('a b'), True))
+        rows.append(('leading %s is dropped' % what, N(w + 'a'), N('a'), True))
+        rows.append(('trailing %s is dropped' % what, N('a' + w), N('a'), True))
+    rows.append(('upper and lower case meet', N('ABC'), N('abc'), True))
+    rows.append(('full case folding, not lower-casing (U+1E9E)', N('\u1e9e'), N('ss'), True))
+    rows.append(('full case folding, not lower-casing (U+00DF)', N('stra\xdfe'), N('STRASSE'), True))
+    rows.append(('a space is not nothing', N('a b'), N('ab'), False))
+    rows.append(('different letters stay different', N('a'), N('b'), False))
+    bad = [(what, x, y) for what, x, y, same in rows if (x == y) != same or not isinstance(x, str) or not isinstance(y, str)]
+    ok = not bad
+    rep.obligation('R-LABEL-AGREE', ok, {'normaliser': nf.short, 'rows': len(rows), 'failed': [b[0] for b in bad][:6]})
     if not ok:
+        what, x, y = bad[0]
+        kind = 'case-fold' if any('case' in b[0] for b in bad) and not any('case' not in b[0] for b in bad) else 'collapse'
         rep.find('R-LABEL-AGREE', nf.short, 'casefold+collapse',
-                 '%s does not %s: %s' % (nf.short, 'case-fold with str.casefold' if not folds else 'collapse inner whitespace to one space',
-                                        flat[:120]), loc(model.unit_of(nf), nf.node))
+                 '%s does not normalise labels as the specification\'s matching rule says: %s fails (%r vs %r)%s'
+                 % (nf.short, what, x, y, '; %d more rows fail' % (len(bad) - 1) if len(bad) > 1 else ''),
+                 loc(model.unit_of(nf), nf.node))
 
 
 def rule_no_output(ctx, rep):
